@@ -5,7 +5,6 @@ use crate::native::list::make_plist;
 use crate::error_utils::*;
 use crate::config;
 use super::NativeFunctionMetaData;
-use unicode_segmentation::UnicodeSegmentation;
 use std::path::PathBuf;
 use std::iter::Peekable;
 
@@ -271,7 +270,7 @@ fn build_character(chars: &[char], location: Location, rest: StringWithPosition)
         "\\s"  => Ok(' '),
         "\\r"  => Ok('\r'),
         "\\\\" => Ok('\\'),
-        c if c.graphemes(true).count() == 1 => Ok(c.chars().next().unwrap()),
+        c if c.chars().count() == 1 => Ok(c.chars().next().unwrap()),
         c      => Err(ReadError::Error{ msg: format!("invalid character: '%{c}'"), location, rest }),
     }
 }
